@@ -32,7 +32,7 @@ def ops_strategy():
     ncid = st.tuples(st.just("ncid"), st.integers(0, 12), st.sampled_from(["0", "0", "seq", "seq", "seq-1", "seq-2", "cur", "cur+1"]))
     ret = st.tuples(st.just("retire"), st.integers(0, 12))
     sw = st.tuples(st.just("switch"), st.integers(0, 12))
-    simple = st.sampled_from([("local_change",), ("ack",), ("ack",), ("lose",), ("timer",), ("ping_each",), ("write",)])
+    simple = st.sampled_from([("local_change",), ("ack",), ("ack",), ("lose",), ("timer",), ("ping_each",), ("write",), ("bulk",), ("bulk",), ("spurious_loss",), ("spurious_loss",)])
     return st.lists(st.one_of(ncid, ncid, ncid, ret, sw, simple, simple), min_size=2, max_size=14)
 
 
@@ -242,6 +242,37 @@ def run_history(ctx, case, check=True):
                     tk.sut.send_stream_data(sid, b"x" * 50, end_stream=True)
                 except Exception:
                     pass
+            elif kind == "bulk":
+                # enough unacknowledged stream data to use up the congestion window: the next control frames do not fit right away
+                try:
+                    sid = tk.sut.get_next_available_stream_id(is_unidirectional=True)
+                    tk.sut.send_stream_data(sid, b"y" * 200000, end_stream=True)
+                except Exception:  # noqa
+                    pass
+            elif kind == "spurious_loss":
+                # The packet carrying the SUT's newest NEW_CONNECTION_ID frames is overtaken by three later packets: the SUT declares it lost
+                # although the peer did receive it, and the peer uses the new IDs right away - before the SUT's next datagrams_to_send().
+                out = sorted(s for s in m.sut_issued if s not in m.sut_retired)
+                victims = [s for s in out if m.sut_issued[s] != tk.dcid]
+                if victims:
+                    sut_call("receive_datagram", tk.send_frames, [{"name": "retire_connection_id", "seq": victims[0]}])
+                    m.sut_retired.add(victims[0])
+                    observe()  # (the replacement is issued here)
+                before = {v.pn for v in tk.sut_packets if v.space == "app" and v.pn is not None}
+                later = []
+                for i in range(3):
+                    try:
+                        tk.sut.send_ping(900 + i)
+                    except Exception:  # noqa
+                        pass
+                    n0 = len(tk.sut_packets)
+                    observe()
+                    later += [v.pn for v in tk.sut_packets[n0:] if v.space == "app" and v.pn is not None]
+                if later and not dead[0] and not closing():
+                    m.acked_pns.update(later)
+                    sut_call("receive_datagram", tk.ack, later)
+                    cls.add("spurious-loss")
+                    ping_each(ctx, tk, m, case, sut_call, observe, dead, check, collect_between=False)
             elif kind == "ping_each":
                 ping_each(ctx, tk, m, case, sut_call, observe, dead, check)
             observe()
@@ -284,13 +315,42 @@ def run_history(ctx, case, check=True):
         return m
 
 
-def ping_each(ctx, tk, m, case, sut_call, observe, dead, check):
+def ping_each(ctx, tk, m, case, sut_call, observe, dead, check, collect_between=True):
     """A PING addressed to each connection ID the SUT issued and the peer has not retired must be accepted (acknowledged)."""
     saved = tk.dcid
+    if not collect_between:
+        # all the PINGs arrive in one batch, before the SUT gets to send anything
+        sent = []
+        first = len(tk.sut_packets)
+        for s in sorted(m.sut_issued):
+            if s in m.sut_retired or dead[0]:
+                continue
+            tk.dcid = m.sut_issued[s]
+            sent.append((s, sut_call("receive_datagram", tk.send_frames, [{"name": "ping"}])))
+        tk.dcid = saved
+        observe()
+        for _ in range(3):
+            if dead[0]:
+                break
+            sut_call("timer", tk.fire_timer, max_wait=8.0, at_least=0.0005)
+            observe()
+        if dead[0] or not check or tk.terminated is not None or tk.sut._close_pending:
+            return
+        acked = set()
+        for v in tk.sut_packets[first:]:
+            for f in v.frames or []:
+                if f["name"] == "ack":
+                    for r in f["acked"] or []:
+                        acked.update(range(min(r), max(r) + 1))
+        for s, pn in sent:
+            if pn is not None and pn not in acked:
+                ctx.violation("packet-to-issued-connection-id-not-accepted", "a PING addressed to the connection ID with sequence number %d (issued by the SUT, not retired by the peer) right after an acknowledgement that made the SUT declare earlier packets lost was not acknowledged" % s, case)
+        return
     for s in sorted(m.sut_issued):
         if s in m.sut_retired or dead[0]:
             continue
         tk.dcid = m.sut_issued[s]
+        first = len(tk.sut_packets)
         pn = sut_call("receive_datagram", tk.send_frames, [{"name": "ping"}])
         observe()
         for _ in range(3):
@@ -302,7 +362,7 @@ def ping_each(ctx, tk, m, case, sut_call, observe, dead, check):
         if dead[0] or not check:
             continue
         acked = False
-        for v in tk.sut_packets[-12:]:
+        for v in tk.sut_packets[first:]:
             for f in v.frames or []:
                 if f["name"] == "ack" and any(min(r) <= pn <= max(r) for r in f["acked"] or []):
                     acked = True
